@@ -1,6 +1,6 @@
 import CalicoVerif.Util.Proto
 import CalicoVerif.Model.C01
-import CalicoVerif.Proofs.C02Spec
+import CalicoVerif.Proofs.C01Acc
 /-! Driver for C01 (see harness/cmd/c01).  Ops:
   `new <vxlan> <ipip> <bpf> <routeSource> <suppress> <idtable>`   fresh graph; idtable = `selhex/proto/porthex=id,…`
   `kv <name> <variant> <kind …>`   one validated datastore update, kinds:
@@ -88,12 +88,8 @@ def dash (s : String) : String := if s == "-" then "" else s
 structure DState where
   g : Graph := Graph.new true
   table : List (IpSetDef × String) := []
-  dp : C02.DP := {}
-  seenPol : List C02.PolicyKey := []
-  seenProf : List String := []
-  seenEp : List C02.EpKey := []
-  setTypes : List (String × Nat) := []
-  seenMem : List (String × String) := []
+  /-- everything emitted so far, accumulated (`Acc.toDP_applyAll`: this IS `DP.applyAll` of the theorems) -/
+  acc : Acc := {}
   inSync : Bool := false
   ds : DS := {}
   suppress : Bool := true
@@ -123,30 +119,15 @@ def tiersStr (ts : List C02.ProtoTier) : String :=
   joinOr (ts.map (fun t => t.name ++ ":" ++ (if t.defaultAction == "" then "-" else t.defaultAction) ++ ":" ++
     joinOr (t.ingress.map polIdStr) "," ++ ":" ++ joinOr (t.egress.map polIdStr) ",")) ";"
 
-def note (d : DState) (m : C02.Msg) : DState :=
-  let d := { d with dp := d.dp.apply m }
-  match m with
-  | .ipsetUpdate id typ ms =>
-    { d with setTypes := C02.mset id typ d.setTypes, seenMem := ms.foldl (fun s x => C02.sadd (id, x) s) d.seenMem }
-  | .ipsetDelta id a _ => { d with seenMem := a.foldl (fun s x => C02.sadd (id, x) s) d.seenMem }
-  | .policyUpdate k _ => { d with seenPol := C02.sadd k d.seenPol }
-  | .profileUpdate k _ => { d with seenProf := C02.sadd k d.seenProf }
-  | .wepUpdate id _ _ => { d with seenEp := C02.sadd (.wep id) d.seenEp }
-  | .hepUpdate id _ _ _ _ _ => { d with seenEp := C02.sadd (.hep id) d.seenEp }
-  | _ => d
-
 def render (d : DState) : String :=
-  let pols := d.seenPol.filterMap (fun k => (d.dp.pol k).map (fun r =>
-    s!"pol {polIdStr k} {r.tag} [{joinWith "," r.refs}]"))
-  let profs := d.seenProf.filterMap (fun k => (d.dp.prof k).map (fun r =>
-    s!"prof {k} {r.tag} [{joinWith "," r.refs}]"))
-  let eps := d.seenEp.filterMap (fun k => (d.dp.ep k).map (fun e =>
-    match k with
+  let pols := d.acc.pols.map (fun p => s!"pol {polIdStr p.1} {p.2.tag} [{joinWith "," p.2.refs}]")
+  let profs := d.acc.profs.map (fun p => s!"prof {p.1} {p.2.tag} [{joinWith "," p.2.refs}]")
+  let eps := d.acc.eps.map (fun p =>
+    let e := p.2
+    match p.1 with
     | .wep id => s!"wep {id} {e.data.tag} [{joinWith "," e.data.profiles}] {tiersStr e.tiers.normal}"
-    | .hep id => s!"hep {id} {e.data.tag} [{joinWith "," e.data.profiles}] {tiersStr e.tiers.normal} | {tiersStr e.tiers.untracked} | {tiersStr e.tiers.preDNAT} | {tiersStr e.tiers.forward}"))
-  let sets := d.setTypes.filterMap (fun p => (d.dp.ipsets p.1).map (fun f =>
-    let ms := sortStrs (((d.seenMem.filter (fun q => q.1 = p.1)).map (·.2)).filter f)
-    s!"ipset {p.1} {p.2} [{joinWith "," ms}]"))
+    | .hep id => s!"hep {id} {e.data.tag} [{joinWith "," e.data.profiles}] {tiersStr e.tiers.normal} | {tiersStr e.tiers.untracked} | {tiersStr e.tiers.preDNAT} | {tiersStr e.tiers.forward}")
+  let sets := d.acc.ipsets.map (fun p => s!"ipset {p.1} {p.2.1} [{joinWith "," (sortStrs p.2.2.eraseDups)}]")
   joinOr (sortStrs (pols ++ profs ++ eps ++ sets)) " ;; "
 
 /-- the same rendering for the SPEC: what a fresh Felix would have emitted for the datastore state -/
@@ -164,7 +145,7 @@ def renderFresh (d : DState) : String :=
 
 def doFlush (d : DState) : DState :=
   let (g, ms) := d.g.flush
-  ms.foldl note { d with g := g }
+  { d with g := g, acc := d.acc.applyAll ms }
 
 def parseEpVal (tag labels profiles nets ports : String) : Option EpVal := do
   let ls ← parseLabels labels
